@@ -242,7 +242,7 @@ class Q:
     def _cmp(self, o, op):
         if not self._ok(o):
             return NotImplemented
-        diff = self - Q.of(o)
+        diff = by_hints(self) - by_hints(Q.of(o))
         if op in ("eq", "ne"):
             t = (diff.n == 0)
             return Sym(t if op == "eq" else z3.Not(t))
@@ -343,6 +343,25 @@ class Q:
         if not self.df:
             return Sym(self.n)
         return Sym(self.n / self.d)
+
+
+# Harness-supplied proof hints: simple rational functions that intermediate values of the code are
+# expected to be *identically* equal to.  Before a comparison decides a sign, an operand that is
+# identically equal to a hint is replaced by the hint (sound: the replacement is an identity decided by
+# normal form; a hint that does not match is ignored).  Without it the sign query is about the
+# unreduced high-degree form and z3 answers unknown.
+VALUE_HINTS = []
+
+
+def by_hints(q):
+    if not VALUE_HINTS or not (q.nf or q.df):
+        return q
+    for h in VALUE_HINTS:
+        if h is q:
+            return q
+        if bool(value_true(poly_eq(q, h))):
+            return h
+    return q
 
 
 def square(q):
